@@ -27,7 +27,7 @@ ASSUMPTIONS = ["input files are sorted by time (the statement's quantifier)", "r
                "one region resolution per price table; unknown station ids are not hexadecimal strings",
                "requests carry no fleet (no fleets file); pooling column left out", "PYTHONHASHSEED pinned to 0"]
 FLOORS = {"quick": {"requests_modelled": 2000, "price_cells_checked": 25000, "flag:late_admitted": 30, "flag:expired_on_arrival": 70,
-                    "flag:table_omits_station": 45, "flag:finer_than_search": 40}, "thorough": {"requests_modelled": 300000}}
+                    "flag:table_omits_station": 45, "flag:finer_than_search": 40}, "thorough": {"requests_modelled": 100000}}
 
 
 @st.composite
